@@ -308,7 +308,7 @@ impl<'a> Cx<'a> {
 }
 
 pub fn run(tier: &str, parity_odd: bool, shard: usize, nshards: usize, rep: &mut Report) {
-    let rich = tier == "thorough";
+    let rich = tier == "thorough" || tier == "deep";
     let mut cx = Cx { rep, parity_odd, execs: 0, shapes_seen: BTreeSet::new(), values_seen: BTreeSet::new(), tracked: false };
     // method list: fixed-size getters, then (variable getter, nbytes)
     struct Meth {
@@ -331,6 +331,9 @@ pub fn run(tier: &str, parity_odd: bool, shard: usize, nshards: usize, rep: &mut
             meths.push(Meth { name: g.name.into(), nbytes: Some(nb), size: nb, order: g.order, signed: g.signed, get: Box::new(move |t| gg(t, nb)), try_get: Box::new(move |t| tg(t, nb)) });
         }
     }
+    // the deep variant (vcheck thorough tier passes --tier deep): more bytes consumed before the value, more tail lengths
+    let rich_deep = tier == "deep";
+    let tails: Vec<usize> = if rich_deep { vec![0, 1, 2, 3, 7, 8, 9, 15, 16, 17, 33] } else { vec![0, 1, 9, 17] };
     let mut cells = 0u64;
     let mut methods_done = 0u64;
     // warm-up pass (untracked) over a few cells, then the tracked table
@@ -347,9 +350,9 @@ pub fn run(tier: &str, parity_odd: bool, shard: usize, nshards: usize, rep: &mut
                 methods_done += 1;
             }
             let pats = patterns(m.size, false);
-            let kmax = if pass == 0 { 0 } else { 2 };
+            let kmax = if pass == 0 { 0 } else if rich_deep { 3 } else { 2 };
             for k in 0..=kmax {
-                for tail in [0usize, 1, 9, 17] {
+                for tail in tails.iter().copied() {
                     // (long tails: the chunk that holds the value extends 8 / 16 bytes beyond it - word-load fast paths)
                     // full pattern set on a small spread of shapes; every shape on a reduced pattern set
                     let mut all0: Vec<u8> = (0..k).map(|i| 0xE0 + i as u8).collect();
